@@ -190,6 +190,19 @@ CLAIMS["C05"] = (
     "`xsum if abs(xsum) >= 1e-10 else 1` is treated as the identity (it differs only at sum(x)=0, outside the decision space). RealLookAhead* simulates and is not claimed.",
     "DESIGN.md §4 C05")
 
+CLAIMS["C12"] = (
+    "branch-by-branch spec congruence of the linkage-decay terms (algebraic normal form) + tiling / slice-coupling rules over the chunked double sums + "
+    "rank and initialisation analysis of the result tensors + usefulness formula (ast)",
+    "Decides necessary conditions only - the tensor identity with exhaustive gamete enumeration is a numerical fact outside static reach: rprob_filial, "
+    "cov_D1s, cov_D2s, cov_D1st, cov_D2st equal their closed forms in every branch (generation index nself+1, coefficients, signs); in all sixteen "
+    "from_algmod builders every chunk loop is zip(range(a,b,s), srange(a+s,b,s)) over one common (a,b,s) with s = (b-a) if mem is None else mem and mem used "
+    "nowhere else (chunk-size independence by construction), a triangular block visit may only double vector-valued contributions, every chunk slice is "
+    "exactly [rst:rsp] or [cst:csp], r = mapfn(|gi-gj|) of genpos meshed (rows, cols) 'ij', linkage terms receive (r, nself); results are zero-initialised "
+    "and no store uses more subscripts than allocated; usefulness = epgc.bv[cross] + i*sqrt(var[cross]).",
+    "Trusted: numpy meshgrid/matmul semantics; the closed forms transcribe the docstrings of vmat/util.py. Known findings: the four abstract "
+    "ProgenyGenicCovariance classes (uninitialised diagonal / rank) which cannot be instantiated.",
+    "DESIGN.md §4 C12")
+
 NOT_YET = "rule set not built yet (build in progress; see DESIGN.md §8)"
 NA = {}
 
